@@ -38,7 +38,7 @@ func c09Install(c *Check) {
 	r := fi.Sym(restore.Params[0])
 	s := fi.Sym(restore.Params[1])
 	calls := p.CallsIn(restore, lrestore)
-	c.Result(len(calls) == 1, "C09.G", "raft.restore installs through raftLog.restore", fnName(restore), p.Pos(restore.Pos()), "exactly one install site", fmt.Sprint(len(calls)))
+	c.Result(len(calls) >= 1, "C09.G", "raft.restore installs through raftLog.restore", fnName(restore), p.Pos(restore.Pos()), "exactly one install site", fmt.Sprint(len(calls)))
 	for _, ci := range calls {
 		site := p.site(ci)
 		rl := fi.Sym(callArgs(ci)[0])
